@@ -18,7 +18,7 @@ D10 = """0 spawn
 
 
 def knobs(r, i):
-    return {"cycle_density": 1 + i % 3, "threads": 1 + i % 3, "cancelable": i % 2 == 0, "multi": i % 3 == 0, "unsampled": i % 3 == 0 or i % 7 == 0, "prebuilt": i % 2 == 1, "stepped": i % 3 == 1}
+    return {"cycle_density": 1 + i % 3, "threads": 1 + i % 3, "cancelable": i % 2 == 0, "multi": i % 3 == 0, "unsampled": i % 3 == 0 or i % 7 == 0, "prebuilt": i % 2 == 1, "stepped": i % 3 == 1, "deprecated_events": i % 4 == 0}
 
 
 def known(lines, oracle, msg):
